@@ -8,6 +8,15 @@
    every export still equals the stateless specification, which for a
    default-scale timeline mentions only its own (normalised) data and options.
 
+   Limitation (audit 3, B1): `norm` is ONE function.  For bare time-of-day
+   values the code's normalisation reads today's date, so it is really a
+   family norm_day; a second pass is the identity whatever the day
+   (norm_day2 (norm_day1 x) = norm_day1 x), hence a list of time-of-day
+   values shared by timelines constructed on DIFFERENT days keeps the first
+   day's dates.  That is sharing through an object the caller passed to both
+   (which the property allows) and is outside this model: histories are taken
+   within one day.
+
    Generic in the types and in init_axis / render / norm; the only hypothesis
    is norm_idem (Section hypothesis, discharged for the concrete normalisation
    by the tie: the harness re-uses the same data list objects across
